@@ -9,19 +9,27 @@ Tie     : extracted lock discipline / growth / retirement facts (tools/extractor
 Monitor : harness/poolcommon.py (written from the property statement): at most one execution per task, own arguments,
           future identity, nothing begins between the return of stop() and the next start() and no worker is left able to
           take a task when stop() returns, FIFO with one worker, no task lost at the end of a run, exactly once in
-          programs that drain; enqueue(non-callable) raises the documented ValueError.
+          programs that drain; enqueue(non-callable) raises the documented ValueError; observations of a future through
+          the public API: done() True only for a task that has ended, result() that answers delivers THE returned object /
+          raises THE raised exception, and once a client has been told that a future is done every later done() is True
+          and every later result() (any time-out) answers at once with that outcome.
 Inputs  : tasks presented as named callables, bare callable instances and functools.partial objects (no __name__),
-          returning truthy / falsy-but-not-None / None objects or raising exceptions with empty args / falsy exception
+          returning truthy / falsy-but-not-None / None objects or raising exceptions with empty args / OSError / falsy exception
           objects, called with tuples, with nothing or with falsy arguments (poolcommon.gen_variant).
+          Observations done() / result(0) / result(0.0) / result(1.0) / result() and done-then-result, in random programs
+          and - in every run - placed before and after every operation of the worker that completes a returning / raising
+          task (poolcommon.observe_sweep), the point between the future's flag and the return of Event.set() included
+          (`fut.published`, a scheduling point of the shim for the futures' events).
 """
 import poolcommon as pc
 
 REQUIRED_THEOREMS = [
     "C09_at_most_once", "C09_exec_count_phase", "C09_single_holder", "C09_queue_nodup",
-    "C09_future_faithful", "C09_result_faithful", "C09_none_after_stop", "C09_fifo_single", "C09_single_worker",
+    "C09_future_faithful", "C09_result_faithful", "C09_done_faithful", "C09_done_stable", "C09_done_then_result",
+    "C09_none_after_stop", "C09_fifo_single", "C09_single_worker",
     "C09_queued_has_server", "C09_eventually_once", "C09_eventually_begins",
     "C09_gen_poolUnlockedAccesses", "C09_gen_poolPendingStores", "C09_gen_poolGrowthRule", "C09_gen_poolRetireRule",
-    "C09_gen_poolRunHandlerSafe", "C09_gen_poolStartRollback",
+    "C09_gen_poolRunHandlerSafe", "C09_gen_poolStartRollback", "C09_gen_poolFuturePublishesLast",
 ]
 
 MIX = [(3, "L1", None), (2, "L2", None), (2, "G", None), (1, "W", None), (1, "GR", None), (1, "L1", (1, 1)), (1, "L2", (1, 0)),
